@@ -228,7 +228,7 @@ def run(ctx):
     nrm = 0
     for bid, b in rm.blocks.items():
         for i, s2 in enumerate(b['succ']):
-            efs = rm.edge_facts(bid, i)
+            efs = rm.edge_facts(bid, i, all=True)
             if s2 is None or not any(pol is True and mentions_call(atom, 'Builder::Build') and mentions_enum(atom, 'ExitSuccess')
                                      for k, pol, atom in efs):
                 continue
